@@ -273,6 +273,14 @@ def isQuiescent (s : TState) : Bool := (internalSucc s).isEmpty
 def nextDue (s : TState) : Option Int :=
   ((s.timer.toList ++ s.orphans).map (·.due)).foldl (fun acc x => match acc with | none => some x | some a => some (min a x)) none
 
+/-- Canonical representative for the state-set engine: the ghost log is dropped, and when no callback
+goroutine is in flight the generation numbers (only ever compared for equality) are renumbered. -/
+def canon (s : TState) : TState :=
+  let s := { s with sent := [] }
+  if s.pending.isEmpty && s.orphans.isEmpty then
+    { s with gen := 0, timer := s.timer.map fun t => { t with gen := if t.gen = s.gen then 0 else -1 } }
+  else s
+
 /-- minimum of a list of instants -/
 def minOf : List Int → Option Int
   | [] => none
@@ -285,7 +293,7 @@ def advanceTo (fuel : Nat) (target : Int) (S : List TState) : List TState :=
   match fuel with
   | 0 => []
   | fuel + 1 =>
-    let Q := ((internalReach 100000 S []).filter isQuiescent).eraseDups
+    let Q := (((internalReach 100000 S []).filter isQuiescent).map canon).eraseDups
     match minOf (Q.filterMap nextDue) with
     | some t =>
       if t < target then advanceTo fuel target (Q.map fun q => { q with now := max t q.now })
